@@ -504,3 +504,51 @@ Proof.
   - destruct (lookup r2 k) as [d|] eqn:L2; [|reflexivity].
     specialize (H2 _ (lookup_in _ _ _ L2)). cbn in H2. rewrite L1, L2 in H2. apply Q in H2. congruence.
 Qed.
+
+(* ---------- whether the constructor raises does not depend on the order of the declarations either ---------- *)
+Lemma add_ok_registered : forall r d r' d', add r d = AddOk r' -> registered r' d' -> registered r d' \/ d' = d.
+Proof.
+  intros r d r' d' A [k L]. apply add_ok_shape in A. destruct A as [->|(l & o & _ & _ & _ & _ & ->)]; [left; exists k; exact L|].
+  rewrite !lookup_dset in L.
+  destruct (key_eqb (o, l) k); [right; congruence|]. destruct (key_eqb (l, o) k); [right; congruence|].
+  left. exists k. exact L.
+Qed.
+
+Lemma build_from_none : forall ds r, reg_inv r -> build_from r ds = None ->
+  exists d d' a b, In d ds /\ usable d /\ usable d' /\ d <> d' /\ handles d a b /\ handles d' a b /\
+                   (In d' ds \/ registered r d').
+Proof.
+  induction ds as [|d0 ds IH]; intros r I; cbn; [discriminate|].
+  destruct (add r d0) eqn:A.
+  - intro B. destruct (IH r I B) as (d & d' & a & b & H1 & H2 & H3 & H4 & H5 & H6 & H7).
+    exists d, d', a, b. repeat split; auto. destruct H7; auto.
+  - intro B. destruct (IH r0 (add_preserves_inv _ _ _ I A) B) as (d & d' & a & b & H1 & H2 & H3 & H4 & H5 & H6 & H7).
+    exists d, d', a, b. repeat split; auto. destruct H7 as [H7|H7]; [auto|].
+    destruct (add_ok_registered _ _ _ _ A H7) as [H8| ->]; auto.
+  - intros _. unfold add in A. destruct (check_imports d0) eqn:C; cbn in A; [|discriminate].
+    destruct (t_fw d0) as [l|] eqn:F; [|discriminate]. destruct (t_other d0) as [o|] eqn:G; [|discriminate].
+    destruct (lookup r (l, o)) as [d'|] eqn:L; [|discriminate].
+    destruct (tdecl_eqb d0 d') eqn:E; [discriminate|].
+    destruct (reg_inv_lookup _ _ _ _ I L) as [Hh Hu].
+    exists d0, d', l, o. repeat split; auto.
+    + intro X. subst d'. rewrite tdecl_eqb_refl in E. discriminate.
+    + left. auto.
+    + right. exists (l, o). exact L.
+Qed.
+
+Lemma build_some_no_conflict : forall ds r d d' a b, build ds = Some r ->
+  In d ds -> In d' ds -> usable d -> usable d' -> handles d a b -> handles d' a b -> d = d'.
+Proof.
+  intros ds r d d' a b B H1 H2 U1 U2 Hh1 Hh2.
+  assert (L1 : lookup r (a, b) = Some d) by (apply (lookup_built_iff ds r a b d B); auto).
+  assert (L2 : lookup r (a, b) = Some d') by (apply (lookup_built_iff ds r a b d' B); auto).
+  congruence.
+Qed.
+
+Lemma build_failure_order_independent_l : forall ds ds', Permutation ds ds' -> build ds = None -> build ds' = None.
+Proof.
+  intros ds ds' P B. destruct (build ds') as [r'|] eqn:B'; [|reflexivity]. exfalso.
+  destruct (build_from_none ds [] reg_inv_nil B) as (d & d' & a & b & H1 & U1 & U2 & N & Hh1 & Hh2 & H7).
+  destruct H7 as [H7|[k H7]]; [|cbn in H7; discriminate].
+  apply N. eapply (build_some_no_conflict ds' r' d d' a b B'); eauto using Permutation_in.
+Qed.
